@@ -13,7 +13,12 @@ CLAIM = dict(
 def check(ctx):
     q = ctx.quick
     ctx.tlc_mc('MC_SparseCSC', 'MC_SparseCSC_C07_quick.cfg' if q else 'MC_SparseCSC_C07.cfg',
-               label='product invariants on every state of the C06 history machine (shapes 0..2 x 0..3, <= %d entries in every order, <= %d operations), all vectors over {-1,0,1,2}: A x, A^T y, explicit transpose, adjoint identity for all pairs, scaling by {-1,0,2,3}' % ((2, 2) if q else (3, 3)))
+               label='product invariants on every state of the C06 history machine (shapes 0..2 x 0..3, <= %d entries in every order, <= %d operations; the quick machine includes explicit zeros: zero initial entry, insert of 0, scale by 0), all vectors over {-1,0,1,2}: A x, A^T y, explicit transpose, adjoint identity for all pairs, scaling by {-1,0,2,3}' % ((2, 2) if q else (3, 3)))
+    if not q:
+        ctx.tlc_mc('MC_SparseCSC', 'MC_SparseCSC_C07_zero.cfg', label='product invariants on the machine with explicit zeros (zero initial entry, insert of 0, scale by 0): shapes 0..2 x 0..3, <= 3 entries, <= 2 operations')
+        genz = ctx.tlc_cases('MC_SparseCSC', 'Gen_SparseCSC_zero.cfg', transform=transform_c07(ctx.seed + 1, both_ctors=False), name='gen_sparse_c07_zero')
+        evz = ctx.exec('sparse', genz)
+        ctx.validate('Trace_SparseCSC', evz, genz, 'sparse', nontrivial=nontrivial)
     gen = ctx.tlc_cases('MC_SparseCSC', 'Gen_SparseCSC_quick.cfg' if q else 'Gen_SparseCSC.cfg', transform=transform_c07(ctx.seed, both_ctors=not q), name='gen_sparse_c07')
     ev = ctx.exec('sparse', gen)
     need = STATE_OPS + ('products',)
@@ -28,6 +33,6 @@ def check(ctx):
     ctx.notes.append('events per operation: replay %s; recorded %s' % (cnt, cnt2))
     return ctx.finish(
         rule='cases: (i) every TLC-enumerated behaviour of the history machine with a products event after the constructor and after every operation, (ii) per shape (r,c) in 0..10^2 a random pattern (random triplet order or raw arrays) with products on the fresh matrix and after each of 4 random modifications, '
-             '(iii) empty/full/diagonal/last-column/first-row/empty-border patterns with several vectors and an explicit transpose, (iv) histories of 30 modifications with products after every second one; vectors have pairwise distinct components in -15..15, scale factors in {-3..3}; element types Rat and f64. '
+             '(iii) empty/full/diagonal/last-column/first-row/empty-border patterns with several vectors and an explicit transpose, (iv) histories of 30 modifications with products after every second one, (v) zero-centred histories (overwrite with 0, new 0 entry, scale by 0) with products after each step; vectors have pairwise distinct components in -15..15, scale factors in {-3..3}; element types Rat and f64. '
              'A products event is non-trivial if at least one of the vectors is non-empty; distinct = distinct (vectors, factor, results).',
         trusted=['harness projection of product vectors to integers and accumulation of the adjoint scalars (harness/src/suites/sparse.rs)', 'TLC', 'Dense.tla MatVec/Transpose as the dense reference'])
